@@ -22,12 +22,15 @@ struct Cfg {
     small_fdt_symbols: bool,
     interleave: u8,
     fdt_same_fec: bool,
+    /// one packet per 5 ms poll instead of draining: FDT repetitions land in the middle of object transfers
+    paced: bool,
 }
 
 impl Cfg {
     fn name(&self) -> String {
-        format!("{}|ib{}|ic{}|{}|n{}|{}|{}|mf{}|il{}|ff{}", self.fec.name(), self.inband_fti, self.inband_cenc, self.cenc.name(), self.nobj,
-            if self.interval { "interval" } else { "delay" }, if self.full_fdt { "full" } else { "obt" }, self.small_fdt_symbols, self.interleave, self.fdt_same_fec)
+        format!("{}|ib{}|ic{}|{}|n{}|{}|{}|mf{}|il{}|ff{}|{}", self.fec.name(), self.inband_fti, self.inband_cenc, self.cenc.name(), self.nobj,
+            if self.interval { "interval" } else { "delay" }, if self.full_fdt { "full" } else { "obt" }, self.small_fdt_symbols, self.interleave, self.fdt_same_fec,
+            if self.paced { "paced" } else { "drain" })
     }
 }
 
@@ -58,7 +61,8 @@ fn build(cfg: &Cfg, seed: u64) -> Result<Built, String> {
     let mut spec = SenderSpec::new(def);
     spec.full_fdt = cfg.full_fdt;
     spec.interleave = cfg.interleave;
-    spec.fdt_carousel = CarouselSpec::DelayMs(150);
+    // paced runs with interleave 1: an FDT repetition every 8th packet slot
+    spec.fdt_carousel = CarouselSpec::DelayMs(if cfg.paced && cfg.interleave == 1 { 40 } else { 150 });
     spec.fdt_duration_s = 3600;
     spec.queues = vec![(0, 1 + (cfg.nobj as u32 + cfg.interleave as u32) % 3)];
     let mut objs = vec![];
@@ -77,7 +81,8 @@ fn build(cfg: &Cfg, seed: u64) -> Result<Built, String> {
         objs.push(o);
     }
     script.push((When::Start, Op::Publish));
-    let mut opts = ScriptOpts::every(50, 80);
+    let mut opts = if cfg.paced { ScriptOpts::every(5, 2400) } else { ScriptOpts::every(50, 80) };
+    opts.drain = !cfg.paced;
     opts.stop_when_empty = false;
     opts.max_packets = 30_000;
     let run = run_script(&spec, &objs, &script, &opts)?;
@@ -194,7 +199,11 @@ fn main() {
                                 small_fdt_symbols: v % 4 >= 2,
                                 interleave: 1 + ((v / 2) % 3) as u8,
                                 fdt_same_fec: v % 4 == 3 && fec != Fec::Raptor,
+                                paced: false,
                             });
+                            let mut paced = cfgs.last().unwrap().clone();
+                            paced.paced = true;
+                            cfgs.push(paced);
                         }
                     }
                 }
